@@ -1,0 +1,104 @@
+// Read-only state digest for external verification tooling.
+// Compiled only with the cargo feature `verif-hooks`; changes no behaviour.
+use super::*;
+use alloc::string::String;
+use core::fmt::Write;
+
+fn set_to_string<T: IsPacketId>(set: &HashSet<T>) -> String {
+    let mut v: Vec<T> = set.iter().copied().collect();
+    v.sort();
+    let mut s = String::new();
+    for (i, x) in v.iter().enumerate() {
+        let _ = write!(s, "{}{}", if i == 0 { "" } else { "," }, x);
+    }
+    s
+}
+
+fn opt_to_string<T: core::fmt::Display>(o: &Option<T>) -> String {
+    match o {
+        Some(v) => alloc::format!("{v}"),
+        None => String::from("none"),
+    }
+}
+
+impl<Role, PacketIdType> GenericConnection<Role, PacketIdType>
+where
+    Role: RoleType,
+    PacketIdType: IsPacketId,
+{
+    /// Canonical one-line digest of every field of the connection (sets sorted, store and
+    /// alias tables in their internal order).
+    pub fn verif_state(&self) -> String {
+        let mut s = String::new();
+        let ver = match self.protocol_version {
+            Version::Undetermined => 0,
+            Version::V3_1_1 => 4,
+            Version::V5_0 => 5,
+        };
+        let _ = write!(s, "ver={ver} pidfree=");
+        for (i, (l, h)) in self.pid_man.verif_intervals().iter().enumerate() {
+            let _ = write!(s, "{}{}-{}", if i == 0 { "" } else { "," }, l, h);
+        }
+        let _ = write!(
+            s,
+            " suback={} unsuback={} puback={} pubrec={} pubcomp={} need_store={} store=",
+            set_to_string(&self.pid_suback),
+            set_to_string(&self.pid_unsuback),
+            set_to_string(&self.pid_puback),
+            set_to_string(&self.pid_pubrec),
+            set_to_string(&self.pid_pubcomp),
+            self.need_store as u8
+        );
+        for (i, p) in self.store.verif_iter().enumerate() {
+            let _ = write!(s, "{}{}:", if i == 0 { "" } else { "," }, p.packet_id());
+            for b in p.to_continuous_buffer() {
+                let _ = write!(s, "{b:02x}");
+            }
+        }
+        let _ = write!(
+            s,
+            " off={} apr={} aping={} amap={} arep={} tar={} tas={} smax={} rmax={} scount={} precv={} mps={} mpr={}",
+            self.offline_publish as u8,
+            self.auto_pub_response as u8,
+            self.auto_ping_response as u8,
+            self.auto_map_topic_alias_send as u8,
+            self.auto_replace_topic_alias_send as u8,
+            self.topic_alias_recv
+                .as_ref()
+                .map(|t| t.verif_dump())
+                .unwrap_or_else(|| String::from("none")),
+            self.topic_alias_send
+                .as_ref()
+                .map(|t| t.verif_dump())
+                .unwrap_or_else(|| String::from("none")),
+            opt_to_string(&self.publish_send_max),
+            opt_to_string(&self.publish_recv_max),
+            self.publish_send_count,
+            set_to_string(&self.publish_recv),
+            self.maximum_packet_size_send,
+            self.maximum_packet_size_recv
+        );
+        let st = match self.status {
+            ConnectionStatus::Disconnected => "D",
+            ConnectionStatus::Connecting => "G",
+            ConnectionStatus::Connected => "C",
+        };
+        let _ = write!(
+            s,
+            " st={} user={} ka={} ska={} rto={} pto={} h2={} tset={}{}{} pb={} cli={}",
+            st,
+            opt_to_string(&self.pingreq_user_send_interval_ms),
+            self.pingreq_keep_alive_ms,
+            opt_to_string(&self.pingreq_server_keep_alive_ms),
+            self.pingreq_recv_timeout_ms,
+            self.pingresp_recv_timeout_ms,
+            set_to_string(&self.qos2_publish_handled),
+            self.pingreq_send_set as u8,
+            self.pingreq_recv_set as u8,
+            self.pingresp_recv_set as u8,
+            self.packet_builder.verif_state(),
+            self.is_client as u8
+        );
+        s
+    }
+}
